@@ -9,7 +9,9 @@ def items():
     # the passphrase-to-key derivation every passphrase-protected message depends on (full product of configurations: C12)
     from contracts import s2k
     kdf = [s for s in s2k.scenarios() if any(t in s.cid for t in ('[Iterated,SHA256,AES256,bytes]', '[Iterated,SHA1,CAST5,str]', '[Salted,SHA256,AES256,bytes]'))]
-    return [s for s in encryption.scenarios() if PID in s.props] + extra + kdf
+    # what is encrypted is the (possibly compressed) packet sequence, and decryption hands back what decompression yields: the codec wiring
+    from contracts import compression
+    return [s for s in encryption.scenarios() if PID in s.props] + extra + kdf + [s for s in compression.scenarios() if PID in s.props]
 
 
 def run(tier='quick', seed=0, only=None):
